@@ -48,7 +48,19 @@ def expr(cases, jobs):
 
 def on_bad(chk, d, r, i, vi):
     d["result"] = r[:24]
-    if r and r[0] == 94 and r[1:3] == [1, 0] or r and r[0] == 91 and r[1:3] == [1, 0] or 89 in r or 90 in r:
+    # r = [code; model_ok; spec_ok; model values...; spec values...] (possibly several blocks appended): what the implementation
+    # computed differs from what the documented rules imply whenever a block has spec_ok = 0 — whether or not the Coq model of
+    # the implementation still describes it; only "spec_ok = 1 but model_ok = 0" is a mere break of the correspondence
+    spec_bad = 89 in r or 90 in r
+    k = 0
+    while k + 2 < len(r):
+        if r[k] in (91, 94) and r[k + 1] in (0, 1) and r[k + 2] in (0, 1):
+            if r[k + 2] == 0:
+                spec_bad = True
+            k += 3
+        else:
+            k += 1
+    if spec_bad:
         d["kind"] = ("a computed size/alignment/stiffness differs from what the documented layout rules imply "
                      "(94: Python class attributes, 91: prophyc model node, 89: encoded length of a fixed type, 90: prophyc left a size undefined); "
                      "result = [code; model_ok; spec_ok; model values...; spec values...]")
